@@ -444,7 +444,9 @@ static void simulate(verif::Run& run, const Cfg& cfg, Judge& J, uint64_t& outcom
                         J.check(rising || falling, "listed-event-did-not-cross", [&] { return "handler " + std::to_string(it->second) + " is listed but its witness goes " + verif::fmtd(eLow) + " -> " + verif::fmtd(eHigh) + " across the window: no sign change"; });
                         J.check(!(rising || falling) || (rising && (wt.mask & 1)) || (falling && (wt.mask & 2)), "listed-event-in-unmonitored-direction", [&] { return "handler " + std::to_string(it->second) + " is listed for a " + (rising ? "rising" : "falling") + " transition (" + verif::fmtd(eLow) + " -> " + verif::fmtd(eHigh) + ") but monitors only " + (wt.mask == 1 ? "rising" : "falling"); });
                         J.check((rising && trans[k] == Event::Rising) || (falling && trans[k] == Event::Falling) || (!rising && !falling), "transition-direction-wrong", [&] { return "handler " + std::to_string(it->second) + " transition reported as " + Event::eventTriggerString(trans[k]); });
-                        if (k < (int)est.size()) J.check(w[0] < est[k] && est[k] <= w[1], "estimated-event-time-outside-window", [&] { return "estimated time " + verif::fmtd(est[k]) + " outside the window"; });
+                        // closed interval: when a report time pins one end of the window the window can be one ulp wide
+                        // and the estimate sits on tLow (the header only says "within the event window")
+                        if (k < (int)est.size()) J.check(w[0] <= est[k] && est[k] <= w[1], "estimated-event-time-outside-window", [&] { return "estimated time " + verif::fmtd(est[k]) + " outside the window"; });
                     }
                     HandleEventsResults res;
                     sys.handleEvents(integ->updAdvancedState(), Event::Cause::Triggered, ids, hopts, res);
